@@ -7,11 +7,13 @@ import (
 	"go/types"
 	"sort"
 	"strings"
+	"text/template/parse"
 
 	"golang.org/x/tools/go/ssa"
 
 	"verif/checker/core"
 	"verif/checker/rules"
+	"verif/checker/tmpl"
 )
 
 // ---------------------------------------------------------------------------------------------------------------------
@@ -555,4 +557,371 @@ func c05typedefSource(c *core.Check) {
 		}
 	}
 	c.Min("typedef-lookup-in-own-ast", 1)
+}
+
+// ---------------------------------------------------------------------------------------------------------------------
+// C15: the generated file lists its Go types in one slice and the runtime pairs that slice with the descriptors by index.
+// Rule: the order of the `range .<Kind>` blocks that emit the slice in the reflection template equals the order in which
+// registerGoTypes consumes it (the kinds appended to structList, then the kinds of the following loops by growing offset).
+func c15goTypesOrder(c *core.Check, st *tmpl.Static) {
+	key := "thrift_reflection.(GlobalDescriptor).registerGoTypes~reflection template go_types"
+	// reader
+	fd := c.Prog.FuncDecl(reflRel, "GlobalDescriptor.registerGoTypes")
+	if fd == nil {
+		c.Unknown("anchor", reflRel+".(GlobalDescriptor).registerGoTypes", "", "missing")
+		return
+	}
+	info := c.Prog.Pkg(reflRel).TypesInfo
+	var reader []string
+	type loop struct {
+		kind  string
+		terms int
+	}
+	var loops []loop
+	ast.Inspect(fd.Body, func(n ast.Node) bool {
+		switch x := n.(type) {
+		case *ast.CallExpr:
+			if rules.IsBuiltin(info, x, "append") && len(x.Args) == 2 && x.Ellipsis.IsValid() {
+				if se, ok := x.Args[1].(*ast.SelectorExpr); ok {
+					reader = append(reader, se.Sel.Name)
+				}
+			}
+		case *ast.RangeStmt:
+			se, ok := x.X.(*ast.SelectorExpr)
+			if !ok {
+				return true
+			}
+			// the offset of this kind inside goTypes: number of len(...) terms in the index expression
+			terms := -1
+			ast.Inspect(x.Body, func(m ast.Node) bool {
+				if ix, ok := m.(*ast.IndexExpr); ok && rules.ExprString(ix.X) == "goTypes" {
+					terms = strings.Count(rules.ExprString(ix.Index), "len(")
+				}
+				return true
+			})
+			if terms >= 0 {
+				loops = append(loops, loop{se.Sel.Name, terms})
+			}
+		}
+		return true
+	})
+	sort.SliceStable(loops, func(i, j int) bool { return loops[i].terms < loops[j].terms })
+	for _, l := range loops {
+		if l.terms > 0 { // the loop over structList itself has offset 0 and is already described by the appends
+			reader = append(reader, l.kind)
+		}
+	}
+	// writer
+	set := st.Sets["reflection"]
+	if set == nil {
+		c.Unknown("go-types-order", key, "", "reflection template set missing")
+		return
+	}
+	var writer []string
+	var trees []*parse.Tree
+	if set.Root != nil {
+		trees = append(trees, set.Root)
+	}
+	var names []string
+	for n := range set.Defs {
+		names = append(names, n)
+	}
+	sort.Strings(names)
+	for _, n := range names {
+		trees = append(trees, set.Defs[n])
+	}
+	for _, t := range trees {
+		if t == nil || t.Root == nil || len(writer) > 0 {
+			continue
+		}
+		var walk func(l *parse.ListNode)
+		walk = func(l *parse.ListNode) {
+			if l == nil {
+				return
+			}
+			in := false
+			for _, n := range l.Nodes {
+				switch x := n.(type) {
+				case *parse.TextNode:
+					txt := string(x.Text)
+					if strings.Contains(txt, "_go_types = []interface{}{") {
+						in = true
+						writer = nil
+					} else if in && strings.Contains(txt, "\n}") {
+						in = false
+					}
+				case *parse.RangeNode:
+					if in && len(x.Pipe.Cmds) == 1 && len(x.Pipe.Cmds[0].Args) == 1 {
+						if f, ok := x.Pipe.Cmds[0].Args[0].(*parse.FieldNode); ok && len(f.Ident) == 1 {
+							writer = append(writer, f.Ident[0])
+						}
+					} else if !in {
+						walk(x.List)
+						walk(x.ElseList)
+					}
+				case *parse.IfNode:
+					if !in {
+						walk(x.List)
+						walk(x.ElseList)
+					}
+				case *parse.WithNode:
+					if !in {
+						walk(x.List)
+						walk(x.ElseList)
+					}
+				}
+			}
+		}
+		walk(t.Root)
+	}
+	c.Decide(len(reader) >= 3 && strings.Join(reader, ",") == strings.Join(writer, ","), "go-types-order", key, c.Prog.Rel(fd.Pos()),
+		"the template emits "+strings.Join(writer, ", ")+" in the order registerGoTypes pairs them with the descriptors",
+		fmt.Sprintf("the template lists the Go types in the order %v but registerGoTypes pairs them by index in the order %v: Go types are registered under the descriptors of another kind (a union's Go type maps to an exception's descriptor)", writer, reader))
+}
+
+// ---------------------------------------------------------------------------------------------------------------------
+// C12: an item "belongs to the previous file" iff it has no name (top of Feed's loop: `!f.IsSetName()` files it under
+// `last`). When a duplicate file is dropped, exactly those items must be dropped with it. Rule: every inner loop of Feed
+// that skips ahead over files[...] (it advances the outer index) classifies items with the same predicate as the attach
+// test, after abstracting the item expression.
+func c12skipPredicate(c *core.Check) {
+	fd := c.Prog.FuncDecl("generator", "FileManager.Feed")
+	key := "generator.(FileManager).Feed/skip-predicate"
+	if fd == nil {
+		c.Unknown("anchor", "generator.(FileManager).Feed", "", "missing")
+		return
+	}
+	info := c.Prog.Pkg("generator").TypesInfo
+	_ = info
+	// the outer loop and its item variable
+	var outer *ast.ForStmt
+	ast.Inspect(fd.Body, func(n ast.Node) bool {
+		if fs, ok := n.(*ast.ForStmt); ok && outer == nil {
+			outer = fs
+		}
+		return outer == nil
+	})
+	if outer == nil || outer.Post == nil {
+		c.Unknown("skip-predicate-agrees", key, c.Prog.Rel(fd.Pos()), "outer loop not found")
+		return
+	}
+	inc, ok := outer.Post.(*ast.IncDecStmt)
+	if !ok {
+		c.Unknown("skip-predicate-agrees", key, c.Prog.Rel(fd.Pos()), "outer loop has no index increment")
+		return
+	}
+	idx := rules.ExprString(inc.X)
+	item := ""
+	for _, s := range outer.Body.List {
+		if as, ok := s.(*ast.AssignStmt); ok && len(as.Lhs) == 1 && len(as.Rhs) == 1 {
+			if ix, ok := as.Rhs[0].(*ast.IndexExpr); ok && rules.ExprString(ix.Index) == idx {
+				item = rules.ExprString(as.Lhs[0])
+				break
+			}
+		}
+	}
+	// attach predicate: the first if of the body that tests the item
+	norm := func(e ast.Expr) string {
+		t := rules.ExprString(e)
+		// abstract the item: `f` or files[<any index>]
+		var b strings.Builder
+		for i := 0; i < len(t); {
+			if strings.HasPrefix(t[i:], "files[") {
+				d := 0
+				j := i + len("files")
+				for ; j < len(t); j++ {
+					if t[j] == '[' {
+						d++
+					} else if t[j] == ']' {
+						d--
+						if d == 0 {
+							j++
+							break
+						}
+					}
+				}
+				b.WriteString("ITEM")
+				i = j
+				continue
+			}
+			b.WriteByte(t[i])
+			i++
+		}
+		s := b.String()
+		if item != "" {
+			s = strings.ReplaceAll(s, item+".", "ITEM.")
+		}
+		return s
+	}
+	attach := ""
+	for _, s := range outer.Body.List {
+		if is, ok := s.(*ast.IfStmt); ok && item != "" && strings.Contains(rules.ExprString(is.Cond), item+".") {
+			attach = norm(is.Cond)
+			break
+		}
+	}
+	if attach == "" {
+		c.Unknown("skip-predicate-agrees", key, c.Prog.Rel(outer.Pos()), "the test that files unnamed items under the previous file was not found")
+		return
+	}
+	n := 0
+	ast.Inspect(outer.Body, func(nd ast.Node) bool {
+		fs, ok := nd.(*ast.ForStmt)
+		if !ok || fs.Cond == nil {
+			return true
+		}
+		// a skipping loop advances the outer index in its body or post
+		adv := false
+		ast.Inspect(fs, func(m ast.Node) bool {
+			if id, ok := m.(*ast.IncDecStmt); ok && rules.ExprString(id.X) == idx {
+				adv = true
+			}
+			return true
+		})
+		if !adv {
+			return true
+		}
+		n++
+		// the item test of the loop condition: the conjunct that mentions files[...]
+		var tests []string
+		var split func(e ast.Expr)
+		split = func(e ast.Expr) {
+			if be, ok := ast.Unparen(e).(*ast.BinaryExpr); ok && be.Op == token.LAND {
+				split(be.X)
+				split(be.Y)
+				return
+			}
+			if strings.Contains(rules.ExprString(e), "files[") && strings.Contains(rules.ExprString(e), "(") {
+				tests = append(tests, norm(e))
+			}
+		}
+		split(fs.Cond)
+		okp := len(tests) == 1 && tests[0] == attach
+		c.Decide(okp, "skip-predicate-agrees", fmt.Sprintf("%s#%d", key, n), c.Prog.Rel(fs.Pos()),
+			"items skipped with a dropped duplicate are classified by "+attach+", the test that attaches items to the previous file",
+			fmt.Sprintf("the loop that discards the items following a dropped duplicate tests %v, but an item belongs to the previous file iff %s: named patches for other files are swallowed (or unnamed ones survive and are attached to the wrong file)", tests, attach))
+		return true
+	})
+	c.Min("skip-predicate-agrees", 1)
+}
+
+// ---------------------------------------------------------------------------------------------------------------------
+// C14: integer keys and indices must survive the JSON transport exactly. Rule: the fieldmask package never converts a
+// floating-point value to an integer type (a key decoded through float64 loses precision above 2^53).
+func c14noFloatKeys(c *core.Check) {
+	pk := c.Prog.Pkg(fmRel)
+	info := pk.TypesInfo
+	convs, bad := 0, 0
+	for _, f := range pk.Syntax {
+		if strings.HasSuffix(c.Prog.Fset.File(f.Pos()).Name(), "_test.go") {
+			continue
+		}
+		for _, d := range f.Decls {
+			fd, ok := d.(*ast.FuncDecl)
+			if !ok || fd.Body == nil {
+				continue
+			}
+			per := 0
+			ast.Inspect(fd.Body, func(n ast.Node) bool {
+				call, ok := n.(*ast.CallExpr)
+				if !ok || len(call.Args) != 1 {
+					return true
+				}
+				tv, ok := info.Types[call.Fun]
+				if !ok || !tv.IsType() {
+					return true
+				}
+				to, ok1 := tv.Type.Underlying().(*types.Basic)
+				from, ok2 := info.Types[call.Args[0]].Type.Underlying().(*types.Basic)
+				if !ok1 || !ok2 || to.Info()&types.IsInteger == 0 {
+					return true
+				}
+				convs++
+				if from.Info()&types.IsFloat != 0 {
+					bad++
+					per++
+					c.Bad("integer-keys-exact", fmt.Sprintf("%s/float-to-int#%d", core.FuncKey(fmRel, fd), per), c.Prog.Rel(call.Pos()),
+						rules.ExprString(call)+" converts a floating-point value to an integer: an index or int-map key that went through float64 (for instance when decoded from JSON) is not exact above 2^53, so the mask selects a neighbouring key after a JSON round trip")
+				}
+				return true
+			})
+		}
+	}
+	c.Analysed["integer_conversions_examined"] = convs
+	if bad == 0 {
+		c.OK("integer-keys-exact", fmRel+"/integer-conversions", fmRel, fmt.Sprintf("%d integer conversions, none from a floating-point value", convs))
+	}
+	if convs < 5 {
+		c.Unknown("integer-keys-exact", fmRel+"/vacuity", "", fmt.Sprintf("only %d integer conversions found", convs))
+	}
+}
+
+// ---------------------------------------------------------------------------------------------------------------------
+// C17: DumpIDL passes the whole text through html.UnescapeString at the end, so every '&' written must have been escaped
+// to "&amp;" on the way in. Rule: in stringBuilder.writeString the escaping ReplaceAll(str, "&", "&amp;") is unconditional
+// or guarded by nothing but "str contains '&'".
+func c17ampEscaped(c *core.Check) {
+	rel := "tool/trimmer/dump"
+	fd := c.Prog.FuncDecl(rel, "stringBuilder.writeString")
+	key := rel + ".(stringBuilder).writeString/amp-escape"
+	if fd == nil {
+		c.Unknown("anchor", rel+".(stringBuilder).writeString", "", "missing")
+		return
+	}
+	info := c.Prog.Pkg(rel).TypesInfo
+	// only armed while the output is unescaped as a whole
+	unesc := false
+	c.Prog.AllFuncDecls(rel, func(_ *ast.File, d *ast.FuncDecl) {
+		for _, call := range rules.Calls(d.Body, true) {
+			if fn := rules.Callee(info, call); fn != nil && fn.Pkg() != nil && fn.Pkg().Path() == "html" && fn.Name() == "UnescapeString" {
+				unesc = true
+			}
+		}
+	})
+	if !unesc {
+		c.OKTrivial("amp-escaped-before-unescape", key, c.Prog.Rel(fd.Pos()), "the dumper no longer unescapes HTML entities")
+		return
+	}
+	var repl *ast.CallExpr
+	for _, call := range rules.Calls(fd.Body, true) {
+		if fn := rules.Callee(info, call); fn != nil && fn.Pkg() != nil && fn.Pkg().Path() == "strings" && fn.Name() == "ReplaceAll" && len(call.Args) == 3 {
+			if a, ok := rules.ConstString(info, call.Args[1]); ok && a == "&" {
+				if b, ok := rules.ConstString(info, call.Args[2]); ok && b == "&amp;" {
+					repl = call
+				}
+			}
+		}
+	}
+	if repl == nil {
+		c.Bad("amp-escaped-before-unescape", key, c.Prog.Rel(fd.Pos()), "writeString does not escape '&' although the dumped text is passed through html.UnescapeString: `&lt` or `&copy=1` inside a literal is rewritten to another character")
+		return
+	}
+	// guards around the replacement
+	var guards []string
+	var path []ast.Node
+	ast.Inspect(fd.Body, func(n ast.Node) bool {
+		if n == nil {
+			path = path[:len(path)-1]
+			return true
+		}
+		path = append(path, n)
+		if n == ast.Node(repl) {
+			for _, p := range path {
+				if is, ok := p.(*ast.IfStmt); ok && is.Body.Pos() <= repl.Pos() && repl.End() <= is.Body.End() {
+					guards = append(guards, rules.ExprString(is.Cond))
+				}
+			}
+		}
+		return true
+	})
+	okg := true
+	for _, gtxt := range guards {
+		switch strings.ReplaceAll(gtxt, " ", "") {
+		case `strings.Contains(str,"&")`, `strings.ContainsRune(str,'&')`, `strings.IndexByte(str,'&')>=0`, `strings.Index(str,"&")>=0`, `strings.ContainsAny(str,"&")`:
+		default:
+			okg = false
+		}
+	}
+	c.Decide(okg, "amp-escaped-before-unescape", key, c.Prog.Rel(repl.Pos()), fmt.Sprintf("'&' is escaped whenever it occurs (guards: %v)", guards),
+		fmt.Sprintf("the escaping of '&' is skipped unless %v: html.UnescapeString also rewrites semicolon-less entities (&lt, &copy, &reg…), so such text in a literal or annotation changes when the dumped IDL is re-parsed", guards))
 }
